@@ -1,6 +1,7 @@
 package rules
 
 import (
+	"fmt"
 	"go/token"
 	"os"
 	"strings"
@@ -62,7 +63,7 @@ func runC15(ctx *core.Ctx) {
 			ctx.Bad("X1", key, c.Pos(), "filepath.Join is not Join(dir, p) with the directory parameter first (%d elements)", len(elems))
 			continue
 		}
-		pv := elems[1]
+		pv := g.Resolve(elems[1], c)
 		clean, ok := pv.(*ssa.Call)
 		if !ok || ssax.CalleeName(&clean.Call) != "path/filepath.Clean" {
 			ctx.Bad("X1", key, c.Pos(), "second Join element is not the result of filepath.Clean")
@@ -191,26 +192,38 @@ func runC15(ctx *core.Ctx) {
 					}
 				}
 				if !closeOK {
+					if os.Getenv("VERIF_DEBUG") != "" {
+						for _, f := range facts {
+							fmt.Fprintf(os.Stderr, "fact %v=%v nilof=%v isnil=%v\n", f.Cond, f.Val, f.NilOf, f.IsNil)
+						}
+					}
 					bad = "close error not known nil at " + p.Pos(at.Pos())
 				}
 			}
-			// success continuation = any successor edge leaving the region dominated by the write towards the loop head or a nil return
+			// success continuation = going on to the next entry (a back edge of the loop over the
+			// entries) or returning nil, after the write
 			wb := writes[0].Block()
-			for _, b := range w.Blocks {
-				if !g.Reach[b.Index] || !g.DomBlock(wb.Index, b.Index) {
+			if l, inLoop := innermostLoop(g, wb.Index); inLoop {
+				for _, latch := range g.Preds[l.Header] {
+					if l.Blocks[latch] {
+						hit, _ := g.ReachableWithout(ssax.PointAfter(writes[0]), func(i ssa.Instruction) bool { return i.Block().Index == latch }, nil)
+						if hit != nil || latch == wb.Index {
+							lb := w.Blocks[latch]
+							check(lb.Instrs[len(lb.Instrs)-1], factsOnEdge(g, lb, w.Blocks[l.Header]))
+						}
+					}
+				}
+			}
+			for _, r := range g.Returns() {
+				if !ssax.IsNil(r.Results[0]) {
 					continue
 				}
-				last := b.Instrs[len(b.Instrs)-1]
-				if r, ok := last.(*ssa.Return); ok && g.Cut[b.Index] < 0 {
-					if ssax.IsNil(r.Results[0]) {
-						check(r, g.FactsAt(b.Index))
-					}
-					continue
-				}
-				for _, s := range b.Succs {
-					if !g.DomBlock(wb.Index, s.Index) && g.Cut[b.Index] < 0 {
-						check(last, factsOnEdge(g, b, s))
-					}
+				if hit, _ := g.ReachableWithout(ssax.PointAfter(writes[0]), func(i ssa.Instruction) bool { return i == ssa.Instruction(r) }, func(i ssa.Instruction) bool {
+					// not through the loop head: that continuation was checked above
+					l, inLoop := innermostLoop(g, wb.Index)
+					return inLoop && i.Block().Index == l.Header
+				}); hit != nil {
+					check(r, g.FactsAtInstr(r))
 				}
 			}
 			ctx.Check(bad == "", "X3", "txtar.Write#errors", c.Pos(), "success continuation requires write and close errors nil %s", bad)
